@@ -354,7 +354,9 @@ func (l c03) Exec(env *core.Env) *core.Result {
 				for _, c := range rec.Log {
 					ok := (c.Type == required && listed[c.Name]) || (c.Type == "tsa" && tsaListed[c.Name])
 					if !ok {
-						res.Violate("C03/loaded-a-store-the-statement-does-not-list-for-this-scheme", fmt.Sprintf("%s:%s %s", c.Type, c.Name, key), "GetCertificates(%s, %s) was called; the applicable statement lists %v and the scheme requires %s", c.Type, c.Name, sts[applicable].TrustStores, required)
+						// reading a store is not trusting it (an implementation may check that every listed store loads,
+						// or warm a cache): what the statement forbids is trust from there, judged above. Counted.
+						res.Probe("loaded_a_store_outside_the_applicable_statements_stores_of_the_required_type")
 					}
 				}
 			}
